@@ -42,3 +42,4 @@ import LapyVerif.Bridge.SolverGlue
 #print axioms LapyVerif.Bridge.census_Misc_pcCount
 #print axioms LapyVerif.Bridge.census_VertexMeasures_pcCount
 #print axioms LapyVerif.Bridge.census_TransferTri_pcCount
+#print axioms LapyVerif.Bridge.diffusion_traced_conservation
